@@ -23,6 +23,12 @@ META = {
             "opaque atoms with a harness-supplied strconv profile), pretty printing, the embedding of JSON-looking strings, nested column paths (a.b), "
             "fixed-length automatic delimiter positions (a heuristic), the transcoders (UTF-8/UTF-8 BOM/UTF-16/Shift_JIS), and the 'updated file "
             "keeps its dialect' clause. "
+            "REGENERATED from /repo on every run (extract/encfacts, go/ast -> Csvq/Gen/EncFacts.lean): the Quote decision of encodeCSV for record and "
+            "header fields as Lean functions (gen_cell_quote_eq_model / gen_header_quote_eq_model: equal to the model's mustQuote for all inputs), "
+            "jsonLineBreakDetector.scan / LineBreak translated statement by statement (gen_detector_first_line_break: first line break outside strings "
+            "for ALL byte strings; gen_detector_chunks / gen_detector_reads: independent of how the bytes are cut into reads), and as fact lists "
+            "proved equal to the reviewed ones: the options that reach the csv/ltsv/fixedlen writers, ConvertFieldContents per value type, "
+            "EncodeEndingLineBreak, the attribute mapping of FileInfo.ExportOptions, every store of the five loaders into FileInfo. "
             "Models tied to /repo on every run: model-encode = real EncodeView bytes (CSV/TSV/LTSV/fixed/JSON compact+pretty/JSONL), model-decode = "
             "real loader on arbitrary bytes (incl. generated and mutated JSON texts), model escape/unescape = go-text functions on code-point strings, "
             "plus the write-then-read law on the real code alone for all six formats",
@@ -51,6 +57,9 @@ def run(run):
         "a failed write-then-read law is attributed to a cause only if repairing exactly that cause in the input repairs the round trip on the real code "
         "(counterfactual re-runs); what no known cause explains is reported as roundtrip:<fmt>:other",
     ]
+    # the decisions csvq itself takes (quoting, options handed to the writers, ExportOptions mapping, what the
+    # loaders store into FileInfo, the JSON line break detector): regenerated from the tree under test
+    run.regen("encfacts", ["go", "run", "-C", "extract/encfacts", "."], "Csvq/Gen/EncFacts.lean")
     run.obligations_for(["Csvq.Props.C02"])
     run.stream("c02", 10000 if q else 150000, timeout=3000)
     if not q:
